@@ -137,6 +137,11 @@ class Gen:
                         v = Variable("tv", self.T)
                         tc2 = {0: Always, 1: Sometime}[rng.randint(0, 1)](self.fl["p"](v))
                         tc = Forall(tc2, v)
+                    if F.get("trajectory_conj") and self.p(F["trajectory_conj"]):
+                        # ONE constraint expression that is a conjunction (what `(:constraints (and ...))` reads as), mixing an Always with
+                        # the constraint just built, in either order (opt-in: consumes no randomness unless asked for)
+                        inv = Always(rng.choice([self.fl["q"](), Not(self.fl["q"]()), self.fl["p"](rng.choice(self.objs))]))
+                        tc = And(inv, tc) if self.p(0.5) else And(tc, inv)
                     pr.add_trajectory_constraint(tc)
                 except Exception:  # noqa
                     pass
